@@ -31,6 +31,7 @@
 //!   (1) `<copy> <packet CTF> => <enc>|<size>|<self>|<cross>`
 //!        ` => U` when the copy's real struct cannot hold the value.
 //!        enc   `W<n>:<hex of whole buffer>` | `E` (Err) | `P` (panic); write into an empty BytesMut.
+//!        a fifth section `A=` / `A!` / `AE` / `AP` / `A-`: the same value written behind a non-empty buffer.
 //!        size  client copies `Z<n>` | `ZP`; broker copies `Z-`.
 //!        self  decode (produced bytes ++ c0 00) with the same copy: `D<consumed> <ctf or =>` | `DE` | `DP`
 //!              (`=` when the decoded value equals the input); `D-` when enc is not W.
@@ -1684,6 +1685,36 @@ enum Enc {
     P,
 }
 
+/// the same value written behind what a connection's write buffer may already hold (replies are
+/// written in bulk: `readb` / `RemoteLink` append packet after packet): '=' the appended bytes and the
+/// returned count equal the write into an empty buffer and the prefix is untouched, '!' otherwise,
+/// 'E' Err, 'P' panic
+fn encode_appended(real: &Real, alone: &BytesMut, n_alone: usize) -> char {
+    const PREFIX: [u8; 4] = [0xC0, 0x00, 0xD0, 0x00];
+    let r = catch_unwind(AssertUnwindSafe(|| {
+        let mut b = BytesMut::new();
+        b.extend_from_slice(&PREFIX);
+        let n = match real {
+            Real::C4(p) => p.write(&mut b, usize::MAX).ok(),
+            Real::C5(p) => p.write(&mut b, None).ok(),
+            Real::B4(p) => rumqttd::protocol::v4::V4.write(p.clone(), &mut b).ok(),
+            Real::B5(p) => rumqttd::protocol::v5::V5.write(p.clone(), &mut b).ok(),
+        };
+        n.map(|n| (n, b))
+    }));
+    match r {
+        Err(_) => 'P',
+        Ok(None) => 'E',
+        Ok(Some((n, b))) => {
+            if n == n_alone && b.len() >= 4 && b[..4] == PREFIX && b[4..] == alone[..] {
+                '='
+            } else {
+                '!'
+            }
+        }
+    }
+}
+
 fn encode(real: &Real) -> Enc {
     let r = catch_unwind(AssertUnwindSafe(|| {
         let mut b = BytesMut::new();
@@ -1787,8 +1818,10 @@ pub fn run_real(cp: Cp, u: &UPacket, real: &Real, o: &mut String) -> Meta {
     let size = size_of(real);
     let enc = encode(real);
     let mut stream: Option<Vec<u8>> = None;
+    let mut appended = '-';
     match &enc {
         Enc::W(n, b) => {
+            appended = encode_appended(real, b, *n);
             m.enc = 'W';
             m.rl = frame_rl(b);
             let _ = write!(o, "W{}:", n);
@@ -1826,6 +1859,8 @@ pub fn run_real(cp: Cp, u: &UPacket, real: &Real, o: &mut String) -> Meta {
             m.panics += (m.slf == 'P') as u64 + (m.cross == 'P') as u64;
         }
     }
+    o.push_str("|A");
+    o.push(appended);
     m
 }
 
